@@ -53,7 +53,44 @@ func sameVar(a, b ssa.Value) bool {
 			return true
 		}
 	}
+	// a variable that is written once (a cell a function literal reads, lift.go) and the value written to it
+	if na, nb := cellNorm(a), cellNorm(b); (na != a || nb != b) && na == nb {
+		return true
+	}
 	return false
+}
+
+// cellNorm: a single-store cell, or a load of it (also through the free variable of a function literal that
+// captures it), stands for the value stored in it
+func cellNorm(v ssa.Value) ssa.Value {
+	for i := 0; i < 3; i++ {
+		v = stripConv(v)
+		var al *ssa.Alloc
+		switch x := v.(type) {
+		case *ssa.Alloc:
+			al = x
+		case *ssa.UnOp:
+			if x.Op == token.MUL {
+				switch y := x.X.(type) {
+				case *ssa.Alloc:
+					al = y
+				case *ssa.FreeVar:
+					if b, ok := (&apWalker{}).freeVarBinding(y).(*ssa.Alloc); ok {
+						al = b
+					}
+				}
+			}
+		}
+		if al == nil {
+			return v
+		}
+		cv := cellValue(al)
+		if cv == nil {
+			return v
+		}
+		v = cv
+	}
+	return v
 }
 
 // elemOf: v is an element of a slice/array: a load of &s[i], the pointer
